@@ -213,6 +213,8 @@ class Engine:
                 return v != 0
             if z3.is_string(v):
                 return z3.Length(v) > 0
+            if z3.is_bv(v):
+                return v != 0
             raise Unsupported(f"truth of sort {v.sort()}")
         if isinstance(v, (Ref,)):
             if v.cls == "list":
@@ -1169,8 +1171,8 @@ class Engine:
                 if not self.feasible(s.pc + [z3.PrefixOf(z3.StringVal(args[0]), recv)]):
                     return [(recv, s)]
                 raise Unsupported("lstrip on a symbolic string that may start with the character")
-            if name == "lower":
-                raise Unsupported("lower() on a symbolic string")
+            if name in ("lower", "upper") and not args:
+                return [(PY_CASE[name](recv), s)]        # uninterpreted: only `the same function of the same text` is known
             raise Unsupported(f"method {name} on a symbolic string")
         if is_sym(recv) and z3.is_int(recv) and name == "bit_length":
             raise Unsupported("bit_length")
@@ -2086,6 +2088,7 @@ def _b_int(eng, s, args, kw):
 
 PY_FLOAT = z3.Function("py_float", z3.StringSort(), z3.RealSort())
 PY_INT = z3.Function("py_int", z3.StringSort(), z3.IntSort())
+PY_CASE = {"lower": z3.Function("py_str_lower", z3.StringSort(), z3.StringSort()), "upper": z3.Function("py_str_upper", z3.StringSort(), z3.StringSort())}
 
 
 def _b_float(eng, s, args, kw):
